@@ -159,6 +159,8 @@ func DecodeLedger(m map[string]string) *Ledger {
 			}
 		case strings.HasPrefix(k, "propFunds_i_"):
 			l.add("", "OLT", amountAny(v), k)
+		case strings.HasPrefix(k, "extBidOffer_ACTIVE_"):
+			l.addBidEscrow(m, k, v) // OLT locked in the bidder's active offer (bid.go)
 		}
 	}
 	return l
@@ -186,7 +188,7 @@ func (g *Gen) hostileTx() GenTx {
 	a, b := g.acct(), g.acct()
 	v := g.W.Vals[g.R.Intn(len(g.W.Vals))]
 	note := "hostile:" + n.String()
-	switch g.R.Intn(12) {
+	switch g.R.Intn(15) {
 	case 0:
 		return g.mk("SEND", note, &transfer.Send{From: a.Addr, To: b.Addr, Amount: amtOf("OLT", n)}, a)
 	case 1:
@@ -219,6 +221,8 @@ func (g *Gen) hostileTx() GenTx {
 			f := p.Proposer
 			return g.mk("PROPOSAL_WITHDRAW_FUNDS", note, &agov.WithdrawFunds{ProposalID: p.ID, Funder: f.Addr, WithdrawValue: amtOf("OLT", n), Beneficiary: b.Addr}, f)
 		}
+	case 12, 13, 14:
+		return g.hostileBidTx(n, note)
 	}
 	return g.mk("SEND", note, &transfer.Send{From: a.Addr, To: b.Addr, Amount: amtOf("VT", n)}, a)
 }
@@ -230,7 +234,9 @@ func (g *Gen) strangerTx() GenTx {
 		victim = g.acct()
 	}
 	v := g.W.Vals[g.R.Intn(len(g.W.Vals))]
-	switch g.R.Intn(8) {
+	switch g.R.Intn(11) {
+	case 8, 9, 10:
+		return g.strangerBidTx(att, victim)
 	case 0:
 		return g.mk("SEND", "stranger-from", &transfer.Send{From: victim.Addr, To: att.Addr, Amount: OLT(7)}, att)
 	case 1:
@@ -286,7 +292,7 @@ func RunLedger(opt LedgerOptions) (*Result, error) {
 	if opt.Direct {
 		name = "ledger-direct"
 	}
-	res := NewResult(name, opt.Seed, "case = one generated block history (all native tx families plus a hostile-amount stream {-2^64,-10^18,-1,0,1,2^63-1,2^63,2^64+1} and a stranger stream where the signer differs from the payload's source/owner/funder field); after every block the committed tree is decoded into the value ledger; monitors: per-currency total(after) <= total(before) + delegation rewards of the block_rewards event (C02), no negative stored amount (C02), per-owner holdings decrease only for signers of the block's transactions, stake accounts of signing validators, or validators declared guilty in the block (C03); non-trivial = at least one hostile or stranger tx executed with code 0 or at least 5 successful value-moving txs; distinct = SHA-256 of the lines")
+	res := NewResult(name, opt.Seed, "case = one generated block history (all native tx families and the bid application of external_apps, plus a hostile-amount stream {-2^64,-10^18,-1,0,1,2^63-1,2^63,2^64+1} and a stranger stream where the signer differs from the payload's source/owner/funder field); after every block the committed tree is decoded into the value ledger (OLT locked in an active bid offer counts as held by the bidder; what an accepted offer pays the owner is a debit the bidder authorised when it signed the offer); monitors: per-currency total(after) <= total(before) + delegation rewards of the block_rewards event (C02), no negative stored amount (C02), per-owner holdings decrease only for signers of the block's transactions, stake accounts of signing validators, or validators declared guilty in the block (C03); non-trivial = at least one hostile or stranger tx executed with code 0 or at least 5 successful value-moving txs; distinct = SHA-256 of the lines")
 	root := rng.New(opt.Seed*131 + 17)
 	seen := map[string]bool{}
 	for c := 0; c < opt.Histories; c++ {
@@ -320,6 +326,7 @@ func RunLedger(opt LedgerOptions) (*Result, error) {
 		stop := false
 		for bi := 0; bi < opt.Blocks && !stop; bi++ {
 			g.Height = sim.Height + 1
+			g.Now = sim.Time
 			var gts []GenTx
 			for i, n := 0, r.Intn(opt.MaxTxs+1); i < n; i++ {
 				var t GenTx
@@ -366,6 +373,10 @@ func RunLedger(opt LedgerOptions) (*Result, error) {
 			auth := map[string]string{}
 			for i, t := range gts {
 				res.Distribution[fmt.Sprintf("%s:%d", t.Kind, br.Txs[i].Code)]++
+				if os.Getenv("LEDGER_LOGS") != "" && br.Txs[i].Code != 0 && strings.HasPrefix(t.Kind, os.Getenv("LEDGER_LOGS")) {
+					// diagnosis aid: why the transactions of a family fail
+					res.Distribution[fmt.Sprintf("log:%s(%s):%.90s", t.Kind, t.Note, br.Txs[i].Log)]++
+				}
 				if br.Txs[i].Code == 0 {
 					if strings.HasPrefix(t.Note, "hostile") || strings.HasPrefix(t.Note, "stranger") {
 						hostileOK++
@@ -381,6 +392,11 @@ func RunLedger(opt LedgerOptions) (*Result, error) {
 				}
 			}
 			for k := range dump {
+				if strings.HasPrefix(k, "extBidConvExpired") {
+					if _, was := prevDump[k]; !was {
+						res.Counters["bid_conversations_expired"]++ // by a BID_EXPIRE transaction or by the block hooks
+					}
+				}
 				if strings.HasPrefix(k, "es__ssvk_") {
 					if _, was := prevDump[k]; !was || prevDump[k] != dump[k] {
 						va := strings.TrimPrefix(k, "es__ssvk_")
@@ -421,6 +437,7 @@ func RunLedger(opt LedgerOptions) (*Result, error) {
 						stop = true
 					}
 				}
+				deals := bidDealDebits(prevDump, dump)
 				for owner, hc := range prev.Holdings {
 					if special[owner] {
 						continue
@@ -434,6 +451,10 @@ func RunLedger(opt LedgerOptions) (*Result, error) {
 							// a contract pays out by its own code, whoever calls it: the authority of its
 							// holdings is the code, not a signature
 							if hasCode(prevDump, owner) || hasCode(dump, owner) {
+								continue
+							}
+							// the amount a bidder locked in an offer it signed is paid out when the owner accepts
+							if d := deals[owner]; d != nil && curName == "OLT" && new(big.Int).Sub(before, after).Cmp(d) <= 0 {
 								continue
 							}
 							if _, ok := auth[owner]; !ok {
